@@ -42,6 +42,12 @@ CHECKS = {
  "C15": dict(cat="model_checking", tech="TLA+ chunk-buffer spec with crash points (TLC) + replay of its behaviours on the real Zarr backends with a fresh reader after every operation",
    text="ZarrBuffer.tla models SampleBuffer (push, full-chunk write, warm-up reset, flush = partial-chunk write, async in-flight writes landing in any order, finalize) and TLC checks for chunk sizes 1..4, up to 4+4 draws, up to 2 flushes that the reader's view contains everything recorded before the last flush, unchanged by later pushes / flushes / finalisation, and no garbage; a variant whose flush does not join pending writes must violate it (teeth). Every behaviour is executed on the real sync (memory + filesystem store) and async (normal and slow write queue) backends; a fresh zarrs reader is opened after every flush and every later record and its view must satisfy ReaderOK of Storage.tla.",
    note="crash = reader opening the store between two operations; async timing sampled with a slowed single-worker runtime", ref="5/C15"),
+ "C02": dict(cat="model_checking", tech="TLA+ exact-rational lattice spec of the affine transformations and the whitened leapfrog (identities checked by TLC) + bit-exact replay of every case into the real transformations and integrator",
+   text="On dyadic inputs IEEE arithmetic is exact, so Lattice.tla (rational arithmetic in TLC) is a bit-exact oracle: TLC checks on every enumerated case (d=1 full grid, d=2 correlated precision with rank 0..2, d=4 with Hadamard eigenvectors of every rank 0..4, d up to 64 with sparse patterns) time reversal, bijectivity, pull-back = transposed Jacobian and equality with the textbook leapfrog for M^-1 = F F'; the real DiagMassMatrix / LowRankMassMatrix and TransformedHamiltonian::leapfrog are driven through each case and compared bit for bit (whitened and original position, velocity, both gradients, logp, index, U-turn answer and its symmetry, backward step).",
+   note="decides structure, not rounding; energy change at 1e-12; O(eps^2) error, volume preservation over R^d, ExactNormal and Microcanonical integrators are not decided by this technique (DESIGN.md 6)", ref="5/C02"),
+ "C17": dict(cat="model_checking", tech="TLA+ element-by-element kernel formulas and IEEE special-value classes evaluated by TLC for all lengths 0..130; bit-exact replay into the real CpuMath methods",
+   text="Kernels.tla gives axpy, axpy_out, element-wise product, dot, scalar_prods2/3 and sq_norm_sum as plain formulas over integer sequences and the class (NaN, +inf, -inf, finite) of each result when one element is special; TLC evaluates them for every length 0..130 with inputs in which every element is distinguishable and with one special value swept over every position; the real CpuMath methods must reproduce the integers exactly, the classes, leave other elements untouched, and detect a special value or zero at every position.",
+   note="exact lattice and special values only; summation-error bounds on general reals, subnormals, alignment offsets are not decided", ref="5/C17"),
 }
 NOT_APPLICABLE = {
  "C19": "encode/decode fidelity of a plain data structure plus equality of two deterministic runs: no state machine, schedule, history or fault to specify in TLA+ (DESIGN.md 5/C19)",
